@@ -20,7 +20,7 @@ BASE = dict(
     Subs=S("1"), RGs=S("1"), Consumers=S("a"), AcctChoices=S((5, 1), (7, 2), (0, 3)),
     Reqs=S(2, 4), Vols=S(0, 1, 3), Modes=S("on"), TrigSets=S("none", "final", "partial"),
     TopUps=S(6), MaxSteps=5, MaxSess=1, Limit=100, Pads=S(0), CreateConts=S(0),
-    TwoEntries=False, BadRefs=False, WellBehaved=False, AskAfterFinal=True, KnownDebitNoFui=True, Lrsn0=0, Recharges=True, Traffic=S(), SinkAnswers=S(204), AddrKinds=S("none"),
+    TwoEntries=False, BadRefs=False, WellBehaved=False, AskAfterFinal=True, KnownDebitNoFui=True, Lrsn0=0, Recharges=True, Traffic=S(), SinkAnswers=S(204), AddrKinds=S("none"), ContShapes=S("single"), ChidModes=S(0), UpdNfcs="{FALSE}",
 )
 
 # clause -> invariant of ChfSeqMC that states it on the model
@@ -119,6 +119,9 @@ def cfg(pid, tier):
             # two rating groups in one request / in separate requests
             sl("two-rg", 600 if q else 6000, RGs=S("1", "2"), TwoEntries=True, MaxSteps=3 if q else 4, Vols=S(0, 3), Reqs=S(4),
                AcctChoices=S((5, 1), (9, 2)), TopUps=S(), TrigSets=S("none", "final")),
+            # two containers in one usage entry: two online ones, or an online and an offline one of the same rating group
+            sl("mixed", 500 if q else 5000, MaxSteps=3 if q else 4, Vols=S(0, 3), Reqs=S(4), AcctChoices=S((9, 2)), TopUps=S(),
+               TrigSets=S("none", "final"), ContShapes=S("on_on", "on_off"), Recharges=False),
             # two sessions of one subscriber sharing a rating group; two subscribers
             sl("two-sess", 500 if q else 6000, Subs=S("1", "2"), MaxSess=2, MaxSteps=4 if q else 5, Vols=S(0, 3), Reqs=S(4),
                AcctChoices=S((5, 1), (9, 2)), TopUps=S(), TrigSets=S("none", "final")),
@@ -131,6 +134,8 @@ def cfg(pid, tier):
                **dict(wb, AcctChoices=S((5, 1), (7, 2), (0, 3)), Vols=S(0, 4))),
             sl("topup", 300 if q else 3000, MaxSteps=4 if q else 5, TopUps=S(6), TrigSets=S("none", "final"),
                **dict(wb, AcctChoices=S((5, 1), (0, 3)))),
+            sl("mixed", 400 if q else 4000, MaxSteps=4 if q else 5, TopUps=S(), TrigSets=S("none", "final"), Recharges=False,
+               ContShapes=S("on_on", "on_off"), **dict(wb, AcctChoices=S((7, 2), (40, 1)), Vols=S(0, 2), Reqs=S(4))),
         ]
     elif pid == "C12":
         base = dict(BadRefs=True, Reqs=S(4), Vols=S(3), TopUps=S(), AcctChoices=S((9, 1)), Limit=6,
@@ -174,6 +179,11 @@ def cfg(pid, tier):
             sl("refs", 1000 if q else 8000, Subs=S("1", "11"), Consumers=S("", "1"), Traffic=S(9), Lrsn0=1, MaxSess=3 if q else 4,
                Modes=S("off"), Reqs=S(), Vols=S(1), TrigSets=S("none"), TopUps=S(), Recharges=False, AcctChoices=S((9, 1)),
                MaxSteps=4 if q else 6),
+            # consumers whose names extend one another, charging ids that coincide between consumers, requests that repeat
+            # the consumer identification
+            sl("names", 800 if q else 6000, Consumers=S("", "smf", "smf-1"), ChidModes=S(0, 5), UpdNfcs="{TRUE, FALSE}", MaxSess=3,
+               Modes=S("off"), Reqs=S(), Vols=S(1), TrigSets=S("none"), TopUps=S(), Recharges=False, AcctChoices=S((9, 1)),
+               MaxSteps=4 if q else 5),
         ]
     return slices, extra
 
